@@ -1,7 +1,7 @@
 (* Properties/C04.v -- C04: frame indifference and crystal-symmetry invariance of rates *)
 From Coq Require Import Reals ZArith List.
 From PV Require Import Num NumR Model_core Spec_drex Proofs_core Proofs_total Proofs_spec
-                       Proofs_frame Proofs_frame2 Proofs_twofold Proofs_twofold2.
+                       Proofs_frame Proofs_frame2 Proofs_frame3 Proofs_twofold Proofs_twofold2.
 From PV.gen Require Import Gen_core.
 Import ListNotations.
 Open Scope R_scope.
@@ -31,6 +31,12 @@ Theorem C04_rates_frame_indifferent : forall regime ph fb (Q D L S : arr R) os f
   derivs_related Q (@derivs NumR regime ph fb os fs D L S p n lam M phi)
                    (@derivs NumR regime ph fb (map (rotQ Q) os) fs (conj Q D) (conj Q L) S p n lam M phi).
 Proof. exact derivs_frame. Qed.
+
+(* the F block of the integrated vector field commutes with the change of frame, so (with the
+   theorem above) all three blocks of the vector field do: exact solutions co-rotate *)
+Theorem C04_Fdot_frame : forall (Q L F : arr R) k, SO3 Q -> (k < 9)%nat ->
+  mm (conj Q L) (conj Q F) k = conj Q (mm L F) k.
+Proof. exact Fdot_frame. Qed.
 
 (* the spin co-rotates through the cofactor matrix: this is where properness (det Q = 1) enters;
    for an improper Q the spin would change sign *)
